@@ -464,7 +464,12 @@ Lemma rg_selset_noout : rg_noout rg_selset.
 Proof. intros ts. unfold rg_selset. apply rg_sel_f_noout. lia. Qed.
 
 (* ================= Document : Definition+ (generic in the definition parser) ================= *)
-Definition rg_def_start (t : rg_token) : bool := rg_is TkName t || rg_is TkStringValue t || rg_is TkLCurly t.
+(* the tokens a definition can start with: `{`, a string (description) or one of the definition keywords *)
+Definition rg_def_keywords : list str :=
+  [rg_s_query; rg_s_mutation; rg_s_subscription; rg_s_fragment; rg_s_schema; rg_s_scalar; rg_s_type;
+   rg_s_interface; rg_s_union; rg_s_enum; rg_s_input; rg_s_directive; rg_s_extend].
+Definition rg_def_start (t : rg_token) : bool :=
+  rg_is_in rg_def_keywords t || rg_is TkStringValue t || rg_is TkLCurly t.
 
 Section Documents.
   Variable def : rg_dp.
@@ -661,15 +666,28 @@ Proof.
     apply rg_ret_complete. exact (rg_fragment_tail_complete rg_true l r Hl I).
 Qed.
 
+Lemma rg_is_kw_in w ws t : In w ws -> rg_is_kw w t = true -> rg_is_in ws t = true.
+Proof.
+  unfold rg_is_kw, rg_is_in. intros Hin H. apply andb_true_iff in H as [-> H]. cbn [andb].
+  apply existsb_exists. exists w. auto.
+Qed.
+Lemma rg_is_in_sub ws ws' t : incl ws ws' -> rg_is_in ws t = true -> rg_is_in ws' t = true.
+Proof.
+  unfold rg_is_in. intros Hi H. apply andb_true_iff in H as [-> H]. cbn [andb].
+  apply existsb_exists in H as (w & Hw & E). apply existsb_exists. exists w. auto.
+Qed.
+
 Lemma rg_exec_definition_first l d : RgExecDefinition l d -> rg_starts rg_def_start l.
 Proof.
+  assert (Hop : forall t, rg_is_optype t = true -> rg_def_start t = true).
+  { intros t Ht. unfold rg_def_start. erewrite rg_is_in_sub; [reflexivity| |exact Ht].
+    intros x [<-|[<-|[<-|[]]]]; cbn; tauto. }
   intros [l0 Hl|t l0 Ht Hl|t w l0 Ht Hl|t w l0 Ht Hon Hl].
   - pose proof (rg_selset_first _ Hl) as Hs. destruct l0 as [|t l1]; [contradiction|]. cbn [rg_starts] in *.
     unfold rg_def_start. rewrite Hs. apply orb_true_r.
-  - destruct (rg_optype_name _ Ht) as (w & -> & _). reflexivity.
-  - destruct (rg_optype_name _ Ht) as (w0 & -> & _). reflexivity.
-  - cbn [rg_starts]. unfold rg_def_start. unfold rg_is_kw in Ht. apply andb_true_iff in Ht as [Ht _].
-    unfold rg_is. now rewrite Ht.
+  - cbn [rg_starts]. now apply Hop.
+  - cbn [rg_starts]. now apply Hop.
+  - cbn [rg_starts]. unfold rg_def_start. erewrite rg_is_kw_in; [reflexivity| |exact Ht]. cbn. tauto.
 Qed.
 
 Lemma rg_exec_definition_noout ts : rg_exec_definition ts <> RgOut.
